@@ -2,7 +2,7 @@ import WzVerif.Driver.Proto
 import WzVerif.Model.Wire
 import WzVerif.Model.Views
 namespace Wz.Driver.C16
-open Wz Wz.Proto Wz.Wire Wz.Hdr Wz.Views
+open Wz Wz.Proto Wz.Wire Wz.Hdr Wz.Views Wz.PyDict
 
 /-! request: `view <family> <prop> <init pairs> op…`; answer: `#dump;ret#dump;…`
 dump = `H=<all header pairs>|V=<held view>|R=<re-read view>` -/
@@ -28,7 +28,8 @@ def directEdit (h : HList) (fields : List String) : Option (HList × String) := 
 /-! ### generic loop -/
 
 structure Fam (σ : Type) where
-  load : HList → σ
+  /-- the property getter: the view and the headers afterwards (reading `content_range` writes) -/
+  load : HList → σ × HList
   show_ : σ → String
   /-- view op: fields → (new headers, new view, result) -/
   vop : HList → σ → List String → Option (HList × σ × String)
@@ -37,28 +38,32 @@ structure Fam (σ : Type) where
   /-- `del response.prop` -/
   delete : HList → Option (HList × String)
 
-def dumpAll {σ : Type} (f : Fam σ) (h : HList) (v : σ) : String :=
-  "H=" ++ oPairs h ++ "|V=" ++ f.show_ v ++ "|R=" ++ f.show_ (f.load h)
+/-- the dump reads the property once more (after the header list was printed) -/
+def dumpAll {σ : Type} (f : Fam σ) (h : HList) (v : σ) : String × HList :=
+  let r := f.load h
+  ("H=" ++ oPairs h ++ "|V=" ++ f.show_ v ++ "|R=" ++ f.show_ r.1, r.2)
 
 def runOps {σ : Type} (f : Fam σ) (h : HList) (v : σ) : List String → Option (List String)
   | [] => some []
   | o :: t => do
     let (h', v', ret) ← (match o.splitOn "," with
-      | ["f"] => some (h, f.load h, "~")
+      | ["f"] => some ((f.load h).2, (f.load h).1, "~")
       | "h" :: fields => (directEdit h fields).map fun (h', r) => (h', v, r)
       | "v" :: fields => f.vop h v fields
       | "as" :: fields => (f.assign h fields).map fun (h', nv, r) => (h', nv.getD v, r)
       | ["del"] => (f.delete h).map fun (h', r) => (h', v, r)
       | _ => none : Option (HList × σ × String))
-    let rest ← runOps f h' v' t
-    pure ((ret ++ "#" ++ dumpAll f h' v') :: rest)
+    let d := dumpAll f h' v'
+    let rest ← runOps f d.2 v' t
+    pure ((ret ++ "#" ++ d.1) :: rest)
 
 def runFam {σ : Type} (f : Fam σ) (init : String) (ops : List String) : Option String := do
   let ps ← pPairs init
-  let h : HList := ps
-  let v := f.load h
-  let outs ← runOps f h v ops
-  pure (";".intercalate (("#" ++ dumpAll f h v) :: outs))
+  let h0 : HList := ps
+  let (v, h) := f.load h0
+  let d := dumpAll f h v
+  let outs ← runOps f d.2 v ops
+  pure (";".intercalate (("#" ++ d.1) :: outs))
 
 /-! ### HeaderSet views -/
 
@@ -103,7 +108,7 @@ def assignRaw (h : HList) (name : Str) (fields : List String) (dictDump : ODict 
   | _ => none
 
 def famSet (name : Str) : Fam HS.St where
-  load h := SetView.load h name
+  load h := (SetView.load h name, h)
   show_ := showSet
   vop h v fields := do
     let op ← pHSOp fields
@@ -165,22 +170,22 @@ def oDRes {β : Type} (f : β → String) : Except String (Option β) → String
   | .error e => oExc e
 
 def famCC : Fam ODict where
-  load := CC.load
+  load h := (CC.load h, h)
   show_ := showCC
   vop h v fields :=
     match fields with
     | ["attr", attr, val] => do
       let (key, _, ty) ← ccRow attr
       let val ← pCCVal val
-      let r := CC.setValue v key ty val
-      pure (if r.notified then CC.write h r.st else h, r.st, resOf r.res)
+      let r := CC.step v (.attr key ty val)
+      pure (if r.notified then CC.write h r.st else h, r.st, oDRes oOptS r.res)
     | ["delattr", attr] => do
       let (key, _, _) ← ccRow attr
-      let r := CC.delValue v key
-      pure (if r.notified then CC.write h r.st else h, r.st, resOf r.res)
+      let r := CC.step v (.delattr key)
+      pure (if r.notified then CC.write h r.st else h, r.st, oDRes oOptS r.res)
     | _ => do
       let op ← pDOp pOptAtom fields
-      let r := dstep v op
+      let r := CC.step v (.dict op)
       pure (if r.notified then CC.write h r.st else h, r.st, oDRes oOptS r.res)
   assign _ _ := none
   delete _ := none
@@ -192,22 +197,22 @@ def cspKey (attr : String) : Option Str := (Gen.Views.cspProps.find? (·.1 == at
 def showCSP (d : CSP.St) : String := "items=" ++ oSDict d ++ "/hdr=" ++ oS (CSP.dump d)
 
 def famCSP (name writeName : Str) : Fam CSP.St where
-  load h := CSP.load h name
+  load h := (CSP.load h name, h)
   show_ := showCSP
   vop h v fields :=
     match fields with
     | ["attr", attr, val] => do
       let key ← cspKey attr
       let val ← pOptAtom val
-      let r := CSP.setValue v key val
-      pure (if r.notified then CSP.write h name writeName r.st else h, r.st, resOf r.res)
+      let r := CSP.step v (.attr key val)
+      pure (if r.notified then CSP.write h name writeName r.st else h, r.st, oDRes oS r.res)
     | ["delattr", attr] => do
       let key ← cspKey attr
-      let r := CSP.delValue v key
-      pure (if r.notified then CSP.write h name writeName r.st else h, r.st, resOf r.res)
+      let r := CSP.step v (.delattr key)
+      pure (if r.notified then CSP.write h name writeName r.st else h, r.st, oDRes oS r.res)
     | _ => do
       let op ← pDOp pAtom fields
-      let r := dstep v op
+      let r := CSP.step v (.dict op)
       pure (if r.notified then CSP.write h name writeName r.st else h, r.st, oDRes oS r.res)
   assign h fields :=
     match fields with
@@ -243,7 +248,7 @@ def pCROp (fields : List String) : Option CR.Op :=
   | _ => none
 
 def famCR : Fam CR.St where
-  load := CR.load
+  load h := CR.fetch h
   show_ := showCR
   vop h v fields := do
     let op ← pCROp fields
@@ -293,7 +298,7 @@ def pAuthView (t tok ps : String) : Option Auth.St := do
   pure ⟨lower (← pAtom t), ← pOKV ps, ← pOptAtom tok⟩
 
 def famAuth : Fam Auth.St where
-  load := Auth.load
+  load h := (Auth.load h, h)
   show_ := showAuth
   vop h v fields := do
     let op ← pAuthOp fields
@@ -320,7 +325,7 @@ def famAuth : Fam Auth.St where
 /-! ### mimetype_params -/
 
 def famMP : Fam MP.St where
-  load := MP.load
+  load h := (MP.load h, h)
   show_ d := "items=" ++ oSDict d
   vop h v fields := do
     let op ← pDOp pAtom fields
